@@ -175,7 +175,7 @@ class BleAdvPduReceived(PbMessageWrapper):
     def to_packet(self):
         """Convert message into its corresponding Scapy packet
         """
-        if self.adv_type in SCAPY_CORR_ADV:
+        if self.adv_type in SCAPY_CORR_ADV and len(self.bd_address) == 6:
             data = bytes(self.adv_data)
 
             packet = BTLE_ADV()/SCAPY_CORR_ADV[self.adv_type](
@@ -195,7 +195,7 @@ class BleAdvPduReceived(PbMessageWrapper):
             # Success, return Scapy packet
             return packet
         else:
-            # Unkown advertisement type
+            # Unkown advertisement type or invalid advertiser address
             return None
 
     @staticmethod
